@@ -132,6 +132,12 @@ def generate(ctx):
         if rng.random() < 0.4:
             rows = same_aa_by_different_codons(rng, genome, feats, ref_row, rows)
         msa, recs = vcommon.build_msa(rng, ref_row, rows, refpos=rng.choice(["first", "middle"]))
+        if rng.random() < 0.3:
+            # a further record named like the reference (it has no row in per-sequence mode, and is no query sequence in
+            # --aggregate either), carrying mutations of its own
+            extra = gen.mutate(rng, ref_row.replace("-", "A"), p_sub=0.15, p_amb=0.0, p_gap=0.0, p_lower=0.0)
+            extra = "".join(c if r != "-" else "-" for c, r in zip(extra, ref_row))
+            msa = msa.rstrip(b"\r\n") + b"\n" + gen.layout(rng, [("REF", extra)], "plain")
         annob = anno.render_genbank(genome, feats, rng) if suffix == "gb" else anno.render_gff(genome, feats, mix=rng)
         append = rng.random() < 0.5
         win = rng.random() < 0.5
@@ -217,6 +223,10 @@ def generate(ctx):
         names = ["q%d" % i for i in range(nq)]
         if g % 2 == 0:
             names[rng.randrange(nq)] = "REF"
+            if nq >= 4 and rng.random() < 0.5:
+                k = rng.randrange(nq)       # and a second one, not adjacent to the first
+                if names[k] != "REF" and all(names[j] != "REF" for j in (k - 1, k + 1) if 0 <= j < nq):
+                    names[k] = "REF"
         for nm in names:
             truth = rng.choice(protos)
             cig = [("M", L)] if rng.random() < 0.6 else [("M", L // 2), ("I", 2), ("M", L - L // 2)]
